@@ -270,6 +270,10 @@ class Printer:
                 return "use_tr(%s)" % self.ex(e["args"][0])
             if f == "optif":
                 return "optif_%s(%d, %s, %s)" % (e["ty"], e["tag"], self.ex(e["args"][0]), self.ex(e["args"][1]))
+            if f == "sel":
+                recv = e["args"][0]
+                rs = recv["n"] if recv.get("k") == "var" else "(%s)" % self.ex(recv)
+                return "%s.selm(%d, %s)" % (rs, e["tag"], self.ex(e["args"][1]))
             if f == "tick":
                 return "tick(%d)" % e["tag"]
         if k == "ret":
